@@ -43,6 +43,28 @@ func dstTransitions(loc *time.Location, y int) []time.Time {
 	return out
 }
 
+// dstMonthEdges returns, for zone loc, the daylight-saving transitions between
+// 2001 and 2045 that fall on the first or the last day of a month (a 23- or
+// 25-hour day next to a month boundary). Computed once per zone.
+var dstEdgeCache = map[string][]time.Time{}
+
+func dstMonthEdges(zone string, loc *time.Location) []time.Time {
+	if v, ok := dstEdgeCache[zone]; ok {
+		return v
+	}
+	var out []time.Time
+	for y := 2001; y <= 2045; y++ {
+		for _, tr := range dstTransitions(loc, y) {
+			l := tr.In(loc)
+			if l.Day() == 1 || l.AddDate(0, 0, 1).Month() != l.Month() {
+				out = append(out, tr)
+			}
+		}
+	}
+	dstEdgeCache[zone] = out
+	return out
+}
+
 func hm(t time.Time) string { return fmt.Sprintf("%02d:%02d", t.Hour(), t.Minute()) }
 
 func c15Spec(r *Rng, f time.Time, zone string) TISpec {
@@ -141,6 +163,22 @@ func c15Gen(seed uint64, tier string) *Plan {
 	var f time.Time
 	switch rng.Intn(6) {
 	case 0, 1: // daylight-saving transition
+		if pick := rng.Bool(0.35); pick && len(dstMonthEdges(zone, loc)) > 0 {
+			ed := dstMonthEdges(zone, loc)
+			// ... on the first or last day of a month: the month boundary next to a
+			// 23- or 25-hour day (days counted from the month's end, clamped ranges)
+			f = Pick(rng, ed)
+			l := f.In(loc)
+			if rng.Bool(0.6) {
+				if l.Day() == 1 {
+					f = time.Date(l.Year(), l.Month(), 1, 0, 0, 0, 0, loc)
+				} else {
+					f = time.Date(l.Year(), l.Month()+1, 1, 0, 0, 0, 0, loc)
+				}
+			}
+			year = l.Year()
+			break
+		}
 		tr := dstTransitions(loc, year)
 		if len(tr) > 0 {
 			f = Pick(rng, tr)
